@@ -142,6 +142,12 @@ var ruleImmutAST = &Rule{
 		out.Counts["reachable_module_functions"] = len(mods)
 		out.Floors["reachable_module_functions"] = 120
 		nw := 0
+		type lockedField struct {
+			owner *types.Named
+			field int
+			tgt   string
+		}
+		var lockedFields []lockedField
 		for _, fn := range mods {
 			for _, w := range writesOf(fn) {
 				nw++
@@ -156,13 +162,45 @@ var ruleImmutAST = &Rule{
 					out.ok(key, site, fnName(fn), "target allocated in the same function (constructor)")
 					continue
 				}
+				if w.Kind == "atomic" {
+					out.viol(key, site, fnName(fn),
+						"a shared, parsed path carries state that a read operation updates atomically ("+tgt+"): race-free, but what a call returns can now depend on the calls made before it on the same Path",
+						reach.path(p, fn)...)
+					continue
+				}
 				if g, how := p.syncGuarded(w.Instr); g {
 					out.ok(key, site, fnName(fn), "synchronised: "+how)
+					if fa, ok := w.Base.(*ssa.FieldAddr); ok && !strings.Contains(how, "Once") {
+						lockedFields = append(lockedFields, lockedField{namedOf(fa.X.Type()), fa.Field, tgt})
+					}
 					continue
 				}
 				out.viol(key, site, fnName(fn),
 					"a shared, parsed path is written during a read operation: "+w.Kind+" to "+tgt+" without synchronisation",
 					reach.path(p, fn)...)
+			}
+		}
+		// a field written under a lock must be read under the lock too
+		for _, lf := range lockedFields {
+			for _, fn := range mods {
+				for _, b := range fn.Blocks {
+					for _, ins := range b.Instrs {
+						u, ok := ins.(*ssa.UnOp)
+						if !ok || u.Op != token.MUL {
+							continue
+						}
+						fa, ok := u.X.(*ssa.FieldAddr)
+						if !ok || fa.Field != lf.field || namedOf(fa.X.Type()) != lf.owner {
+							continue
+						}
+						key := fmt.Sprintf("%s reads %s", fnName(fn), lf.tgt)
+						if g, how := p.syncGuarded(u); g {
+							out.ok(key, p.pos(u.Pos()), fnName(fn), "read synchronised: "+how)
+						} else {
+							out.viol(key, p.pos(u.Pos()), fnName(fn), "the field is written under a lock during read operations but read here without it (double-checked locking): a data race on a shared Path", reach.path(p, fn)...)
+						}
+					}
+				}
 			}
 		}
 		out.Counts["writes_examined"] = nw
